@@ -116,6 +116,15 @@ h_on_stop(tpt_p tpt) {
 	}
 }
 
+static int shutdown_write_failed;
+static void
+do_shutdown(tp_p p) {
+	int before = v_n_write_fail;
+	tp_shutdown(p);
+	if (v_n_write_fail != before)
+		shutdown_write_failed = 1;
+}
+
 static void
 cb_msg(tpt_p tpt, void *udata) {
 	(void)tpt; (void)udata;
@@ -128,7 +137,7 @@ cb_req_shutdown(tpt_p tpt, void *udata) { /* runs on a pool thread */
 	if (destroyed) after_destroy_cb ++;
 	n_req_cb ++;
 	tp_p p = tpt_get_tp(tpt);
-	tp_shutdown(p);
+	do_shutdown(p);
 	if (EDEADLK != tp_shutdown_wait(p)) edeadlk_ok = 0;
 	if (EDEADLK != tp_destroy(p)) edeadlk_ok = 0;
 }
@@ -153,6 +162,12 @@ h_block(void) { /* a blocking epoll_wait() of a worker finds nothing */
 		return (-1);
 	}
 	if (2 == run_ctx) {
+#ifdef KF_SHUTDOWN_MSG_LOST	/* known finding: tp_shutdown ignores a failed queue write; only that cause is blocked */
+		if (shutdown_write_failed) {
+			V_WITNESS("known-finding path: shutdown message lost, join would never return");
+			H_STOP("known finding: shutdown message lost");
+		}
+#endif
 		join_never_returns ++;
 		V_ASSERT(0, "pthread_join() in tp_shutdown_wait returns: the joined worker does not wait forever in its loop");
 	} else {
@@ -280,17 +295,19 @@ harness(void) {
 			if (slot >= 0 && !thr_started[slot])
 				run_thread(slot, 1);
 		} else if ('s' == op) {
-			tp_shutdown(tp);
+			do_shutdown(tp);
 		} else if ('w' == op) {
 			r = tp_shutdown_wait(tp);
 			V_ASSERT(0 == r || EBUSY == r, "tp_shutdown_wait from outside: 0, or EBUSY before shutdown");
 		} else if ('d' == op) {
+			do_shutdown(tp);	/* tp_destroy() starts with tp_shutdown(); issued here so that a refused write is attributed */
 			r = tp_destroy(tp);
 			V_ASSERT(0 == r, "tp_destroy from outside the pool succeeds");
 			destroyed = 1;
 		}
 	}
 	if (!destroyed) {
+		do_shutdown(tp);
 		r = tp_destroy(tp);
 		V_ASSERT(0 == r, "tp_destroy from outside the pool succeeds");
 		destroyed = 1;
